@@ -178,6 +178,15 @@ def translate(repo):
         if needle not in fhf:
             raise TranslateError("File.h: %s no longer reads `%s`" % (what, needle))
     has(r"int\s+File::read\s*\(\s*void\s*\*\s*p\s*,\s*int\s+n\s*\)\s*\{", "return(int)fread(p,1,n,_file);", "File::read()")
+    # ---- File::operator>>(String&) and the generic operator>> it reads the length with
+    m = re.search(r"File&operator>>\(String&x\)\{intn=0;\*this>>n;x\.clear\(\);charbuf\[(\d+)\];while\(n>0\)\{"
+                  r"intm=read\(buf,n<\(int\)sizeof\(buf\)\?n:\(int\)sizeof\(buf\)\);if\(m<=0\)break;x\.append\(buf,m\);n-=m;\}return\*this;\}", fhf)
+    if not m or int(m.group(1)) < 1:
+        raise TranslateError("File.h: File::operator>>(String&) no longer has the transcribed shape (int n = 0; *this >> n; x.clear(); "
+                             "char buf[<k>]; while (n > 0) { m = read(buf, min(n, sizeof(buf))); if (m <= 0) break; x.append(buf, m); n -= m; })")
+    shr_block = int(m.group(1))
+    if "File&get_(T&x,void*){read(&x,sizeof(x));if(_endian==ASL_OTHER_ENDIAN)swapBytes(x);return*this;}" not in fhf:
+        raise TranslateError("File.h: the generic File::operator>>(T&) (get_) is no longer `read(&x, sizeof(x)); swap if other endian`")
     has(r"int\s+File::write\s*\(\s*const\s+void\s*\*\s*p\s*,\s*int\s+n\s*\)\s*\{", "return(int)fwrite(p,1,n,_file);", "File::write()")
     # ---- Directory::copy / move (POSIX half)
     dc = _posix_part(cparse.read(repo, "src/Directory.cpp"))
@@ -218,6 +227,7 @@ def translate(repo):
            "   src/Directory.cpp — do not edit -/\nnamespace Gen.File\n\n")
     txt += "/-- `int chunk = %d;` in `TextFile::readLine(String&)` (the `fgets` buffer size) -/\ndef readLineChunk : Nat := %d\n\n" % (chunk, chunk)
     txt += "/-- `byte buffer[%d];` in `Directory::copy` (POSIX half): the loop reads `sizeof(buffer)` and repeats while `n == sizeof(buffer)` -/\ndef copyBlock : Nat := %d\n\n" % (block, block)
+    txt += "/-- `char buf[%d];` in `File::operator>>(String&)`: the read loop asks for `min(n, sizeof(buf))` bytes -/\ndef shrBlock : Nat := %d\n\n" % (shr_block, shr_block)
     txt += "/-- `enum OpenMode{READ, WRITE, APPEND, RW, TEXT=8}` (include/asl/File.h) without the flag -/\n"
     txt += "inductive OpenMode where\n  | read | write | append | rw\nderiving DecidableEq, Repr\n\n"
     for name, tab, what in (("fopenBin", binm, "without `TEXT`"), ("fopenText", txtm, "with `TEXT` (every `TextFile::open`)")):
@@ -346,6 +356,18 @@ def reference(line):
                 return None
             ls = ref_lines(b)
             return "%s last=%s end=1" % (show_lines(ls[:-1]), show_bytes(ls[-1]))
+        if op == "xshw":
+            # f << int(s.length()) << s << tail; g >> x; read of the rest: x is s, the rest is tail, the over-long read hits the end
+            return "%s rest=%s end=1" % (show_bytes(tok_bytes(t[1])), show_bytes(tok_bytes(t[2])))
+        if op == "xshr":
+            # the int32 length in host (little-endian) order — missing bytes of a truncated field stay 0 —, then that many bytes
+            # or the bytes that are there; nothing for a negative length
+            b = tok_bytes(t[1])
+            n = int.from_bytes(b[:4].ljust(4, b"\0"), "little", signed=True)
+            body = b[4:]
+            x = body[:max(n, 0)]
+            short = len(b) < 4 or n > len(body)
+            return "%s pos=%d end=%d" % (show_bytes(x), min(len(b), 4) + len(x), 1 if short else 0)
         if op == "xtext":
             r = ref_text(tok_bytes(t[1]))
             return None if r is None else show_bytes(r)
@@ -666,6 +688,37 @@ def gen(rng, tier):
     for n in ([3000, 65536, 200000] if quick else [3000, 65536, 200000, 1 << 20, 1 << 22]):
         cases.append(["xlines " + btok(rng, n, True), "xrl " + btok(rng, n, True), "xrlw " + btok(rng, n, True)])
     cases.append(["xlines " + hexs(b"\n" * (3000 if quick else 100000)), "xlines " + hexs(b"\r\n" * 2500)])
+    # B5: reading back with the stream operators (shr_string_inverse, shr_string_beyond, shr_string_negative): `f >> x` for a String
+    # written as `f << int(s.length()) << s`, lengths around the 1024-byte read buffer; raw files with a truncated length, a
+    # negative length, a length beyond the end of the file
+    shr_sizes = list(range(0, 12)) + [1022, 1023, 1024, 1025, 1026, 2047, 2048, 2049, 3072, 4097] + [rng.randrange(0, 5000) for _ in range(8 if quick else 200)]
+    shr_sizes += [200000] if quick else [65536, 200000, 1 << 20]
+    batch = []
+    for n in shr_sizes:
+        tl = rng.choice([0, 0, 1, 3, 7, rng.randrange(0, 1500)])
+        batch.append("xshw %s %s" % (btok(rng, n), btok(rng, tl)))
+        if n <= 5000:
+            body = rbytes(rng, n)
+            batch.append("xshr " + hexs(n.to_bytes(4, "little") + body + rbytes(rng, tl)))
+        if len(batch) >= 6:
+            cases.append(batch)
+            batch = []
+    if batch:
+        cases.append(batch)
+    for i in range(40 if quick else 600):
+        body = rbytes(rng, rng.choice([0, 1, 2, 5, 1023, 1024, 1025, rng.randrange(0, 3000)]))
+        k = rng.randrange(5)
+        if k == 0:      # truncated length field
+            raw = rbytes(rng, rng.randrange(0, 4))
+        elif k == 1:    # negative length
+            raw = rng.randrange(1 << 31, 1 << 32).to_bytes(4, "little") + body
+        elif k == 2:    # length beyond the end of the file
+            raw = rng.choice([len(body) + 1, len(body) + 1024, len(body) + rng.randrange(1, 100000), (1 << 31) - 1]).to_bytes(4, "little") + body
+        elif k == 3:    # shorter than the file
+            raw = rng.randrange(0, len(body) + 1).to_bytes(4, "little") + body
+        else:           # arbitrary bytes
+            raw = rbytes(rng, rng.randrange(0, 12))
+        cases.append(["xshr " + hexs(raw)])
     # ---- (C) byte-order marks
     for i in range(300 if quick else 5000):
         n = rng.choice([0, 1, 2, 3, 5, 10, 40]) if rng.random() < 0.8 else rng.randrange(0, 3000)
